@@ -46,7 +46,7 @@ func memoCache(c *core.Ctx, key string, field *types.Var, accessor *ssa.Function
 							if ok {
 								// nothing the caller supplied other than the receiver takes part
 								for v := range core.Slice(u.Common().Args[1]) {
-									if p, isP := v.(*ssa.Parameter); isP && p != fn.Params[0] {
+									if p, isP := v.(*ssa.Parameter); isP && p.Parent() == fn && p != fn.Params[0] {
 										ok = false
 									}
 								}
